@@ -748,9 +748,15 @@ func genClientScript(r *rand.Rand, trace, length int, profile string) *clScript 
 			nrules := 0
 			if errno == 0 {
 				nrules = r.Intn(4)
+				var prev []int
 				for i := 0; i < nrules; i++ {
 					plan = append(plan, gap(r)...)
-					plan = append(plan, simFrame{K: "msg", Type: 1013, Rel: "own", Payload: randomPayload(r, 1+r.Intn(1100))})
+					pl := randomPayload(r, 1+r.Intn(1100))
+					if prev != nil && r.Intn(3) == 0 { // what the kernel lists is up to the kernel: the same payload twice in a row
+						pl = append([]int(nil), prev...)
+					}
+					prev = pl
+					plan = append(plan, simFrame{K: "msg", Type: 1013, Rel: "own", Payload: pl})
 				}
 				plan = append(plan, gap(r)...)
 				plan = append(plan, simFrame{K: "msg", Type: 3, Rel: "own", Payload: []int{}})
@@ -777,6 +783,31 @@ func genClientScript(r *rand.Rand, trace, length int, profile string) *clScript 
 		}
 		sc.Ops = append(sc.Ops, clOp{Name: "WaitForPendingACKs", Mode: "wait"})
 		sc.Ops = append(sc.Ops, clOp{Name: "WaitForPendingACKs", Mode: "wait"})
+	}
+	if profile == "C17" && trace%5 == 1 {
+		// the rule table listed, changed and listed again (what auditctl -l, -D, -R does): the second listing is
+		// received while the first result is still held; it may be smaller, equal or larger
+		listing := func(n, size int) {
+			plan := []simFrame{ackFrame(0)}
+			for i := 0; i < n; i++ {
+				plan = append(plan, simFrame{K: "msg", Type: 1013, Rel: "own", Payload: randomPayload(r, size+r.Intn(8))})
+			}
+			plan = append(plan, simFrame{K: "msg", Type: 3, Rel: "own", Payload: []int{}})
+			sc.Ops = append(sc.Ops, clOp{Name: "GetRules", Mode: "wait", Plan: [][]simFrame{plan}})
+		}
+		n, size := 1+r.Intn(6), []int{8, 64, 300, 1056}[r.Intn(4)]
+		listing(n, size)
+		for i := r.Intn(3); i > 0; i-- {
+			addSetter("wait")
+		}
+		switch r.Intn(3) {
+		case 0:
+			listing(n, size)
+		case 1:
+			listing(1+r.Intn(n), size)
+		default:
+			listing(1+r.Intn(8), []int{8, 64, 300, 1056}[r.Intn(4)])
+		}
 	}
 	for len(sc.Ops) < length {
 		if profile != "C17" {
